@@ -55,6 +55,7 @@ KStr = KPrim('Str', S)
 # Names: atoms (Int-backed).  0 encodes None; valid names are > 0 (non-empty).
 KBits = KPrim('Bits', z3.BitVecSort(64))
 KName = KPrim('Name', I)
+KCallable = KPrim('Callable', I)      # opaque callback (calling it has no modelled effect)
 KNameOpt = KPrim('Name', I, nullable=True)
 
 
@@ -200,7 +201,7 @@ def is_refkind(k):
 def parse_kind(text, classes=(), enums=()):
     """Parse 'Dict[Name,Ref[Application]]' style kind strings."""
     text = text.strip()
-    prim = {'Bits': KBits, 'Int': KInt, 'Real': KReal, 'Bool': KBool, 'Str': KStr,
+    prim = {'Callable': KCallable, 'Bits': KBits, 'Int': KInt, 'Real': KReal, 'Bool': KBool, 'Str': KStr,
             'Name': KName, 'Vec': KVec3, 'Ext': KExtReal}
     if text in prim:
         return prim[text]
